@@ -210,7 +210,8 @@ impl Engine for HrEngine {
             }
             // ---------------------------------------------------------------- C05: an asset first loaded DURING a pass (known finding F-C05d)
             6 => {
-                l.push(format!("newdep {}", if tier == Tier::Thorough { 60 } else { 24 }));
+                let n = if tier == Tier::Thorough { 60 } else { 24 };
+                if (idx / 8) % 2 == 0 { l.push(format!("newdep {n}")); } else { l.push(format!("rewire {n}")); }
             }
             // ---------------------------------------------------------------- C05: convergence over random DAGs
             _ => {
@@ -260,6 +261,10 @@ impl Engine for HrEngine {
     fn exec_case(&mut self, lines: &[String], rec: &mut CaseRec) {
         if let Some(n) = lines.first().and_then(|l| l.strip_prefix("newdep ")).and_then(|n| n.parse::<usize>().ok()) {
             newdep_probe(n, rec);
+            return;
+        }
+        if let Some(n) = lines.first().and_then(|l| l.strip_prefix("rewire ")).and_then(|n| n.parse::<usize>().ok()) {
+            rewire_probe(n, rec);
             return;
         }
         let first = lines.first().map(|s| s.split_whitespace().collect::<Vec<_>>()).unwrap_or_default();
@@ -322,7 +327,7 @@ impl Engine for HrEngine {
             rec.op(model_line, out.clone());
             rec.nontrivial = true;
             rec.stat(format!("op={}", w[0]));
-            if wx.unspecified { rec.stat("truncated/new-asset-loaded-during-a-pass"); break; }
+            if wx.unspecified { rec.stat(format!("truncated/{}", wx.unspecified_why)); break; }
             match w[0] {
                 "notify" => {
                     notified_since_reload = true;
@@ -414,6 +419,30 @@ fn last_present(_wx: &WorldExec, goi: &BTreeMap<(String, String), String>, key: 
 /// `e.s`; `c` loads `e`. The pass was sorted before `c` existed, so whether `b` (and with it the fresh `c`) or `e` is
 /// reloaded first is the arbitrary iteration order of a hash set: in one order `c` is built from the stale `e` and nothing
 /// reloads it afterwards. Everything was notified, yet after `hot_reload` returns the cached `c` differs from a fresh load.
+/// The same ordering question for an asset that is ALREADY cached: in one pass `b.s` changes (its new script starts to
+/// load the cached `e`) and `e.s` changes. The graph has no edge e -> b when the pass is sorted.
+fn rewire_probe(trials: usize, rec: &mut CaseRec) {
+    let mut stale = 0usize;
+    for t in 0..trials {
+        let mut wx = WorldExec::new("shared", "hot");
+        for (id, sc) in [("b", "1"), ("e", "10")] { wx.op(&format!("src.put {} {} {} 0", hexs(id), hexs("s"), hexs(sc))); }
+        wx.op(&format!("load S0 {}", hexs("b")));
+        wx.op(&format!("load S0 {}", hexs("e")));
+        wx.op(&format!("src.put {} {} {} 0", hexs("b"), hexs("s"), hexs("2 +S0:e")));
+        wx.op(&format!("src.put {} {} {} 0", hexs("e"), hexs("s"), hexs(&format!("{}", 20 + t))));
+        wx.op(&format!("notify f:{}:{} f:{}:{}", hexs("b"), hexs("s"), hexs("e"), hexs("s")));
+        wx.op("reload");
+        let cached = wx.peek("S0", "b").map(|p| p.0);
+        let fresh = wx.op(&format!("owned S0 {}", hexs("b")));
+        if let (Some(c), Some(f)) = (cached, fresh.strip_prefix("ok ")) { if c != f { stale += 1; } }
+    }
+    rec.nontrivial = true;
+    rec.stat("family=rewire");
+    rec.stat(format!("rewire/stale-trials={}", if stale == 0 { "0" } else { ">0" }));
+    if stale > 0 { rec.oracle_fail(format!("stale-asset-newly-depending-on-changed-asset in {stale} of {trials} trials: S0:b (rewired to load the cached S0:e) was rebuilt from the stale S0:e and not reloaded again, although b.s and e.s were both notified before hot_reload")); }
+    rec.op(format!("hr.rewire {trials}"), "observed");
+}
+
 fn newdep_probe(trials: usize, rec: &mut CaseRec) {
     let mut stale = 0usize;
     for t in 0..trials {
